@@ -286,7 +286,7 @@ type c09VCall struct {
 	panicAt string
 }
 
-func TestVerif_C09_PolicyValues(t *testing.T) {
+func TestVerif_C09_FilterPolicyValues(t *testing.T) {
 	r := kit.Start(t, "C09")
 	defer r.Finish()
 	clk := &c09VClock{}
